@@ -2299,7 +2299,11 @@ class FnTranslator:
         if name == 'dot':
             o = self.eig(args[0])
             self.rule('eigen: dot expanded to sum of products (left fold)')
-            return fold('+', [('bin', '*', ev.get(i, j), o.get(i, j), st) for i, j in cells])
+            if ev.rows * ev.cols != o.rows * o.cols or min(ev.rows, ev.cols) != 1 or min(o.rows, o.cols) != 1:
+                self.err(n, 'dot of non-vectors or of vectors of different length')
+            # operands may have different orientations (row.dot(col)): pair the k-th coefficients
+            ocell = lambda k: o.get(k, 0) if o.cols == 1 else o.get(0, k)
+            return fold('+', [('bin', '*', ev.get(i, j), ocell(max(i, j)), st) for i, j in cells])
         if name == 'sum':
             self.rule('eigen: sum expanded (left fold)')
             return fold('+', [ev.get(i, j) for i, j in cells])
